@@ -565,7 +565,9 @@ def C13(ctx):
         want = _outcome_b(lambda: tools.adjust_key_parity(k))
         for name, mk in gens.byteslike_forms(k):
             got = _outcome_b(lambda: tools.adjust_key_parity(mk()))
-            ctx.check("adjust_key_parity depends on the key's bytes only", got == want, f"adjust_key_parity(<{name}> of {hx(k)}) -> {got}, bytes form -> {want}")
+            # a form other than bytes / bytearray is outside what C13 speaks about: it may be refused, but if a key comes back it is the key
+            ctx.check("adjust_key_parity depends on the key's bytes only (or refuses the form)", got == want or got in (("exc", "TypeError"), ("exc", "ValueError")),
+                      f"adjust_key_parity(<{name}> of {hx(k)}) -> {got}, bytes form -> {want}")
             if got[0] == "ok":
                 ctx.check("adjust: odd, only bit 0, idempotent", all(odd(b) for b in got[1]) and tools.adjust_key_parity(got[1]) == got[1],
                           f"adjust_key_parity(<{name}> of {hx(k)}) -> {hx(got[1])}")
